@@ -16,7 +16,7 @@ package receiver
 //@ requires [uniquenames] forall a uint64, b uint64 :: a != b && a in peersAll(h.peers) && b in peersAll(h.peers) ==> peersAll(h.peers)[a].Name != peersAll(h.peers)[b].Name
 //@ ensures [found] result != 0 ==> hastype(callerName(ctx), "string") && result in peersAll(h.peers) && peersAll(h.peers)[result].Name == unbox(callerName(ctx), "string")
 //@ ensures [complete] isPeerName(h, ctx) ==> result != 0
-//@ loop #1
+//@ loop #1 over range h.peers.All()
 //@ invariant [nomatch] forall k uint64 :: visited()[k] && k != 0 ==> peersAll(h.peers)[k].Name != unbox(callerName(ctx), "string")
 
 //@ func (*Handler).Abort
@@ -50,7 +50,7 @@ package receiver
 //@ modifies procstate
 //@ ensures [peeronly] result1 == nil ==> isPeerName(h, ctx)
 //@ ensures [refused] !isPeerName(h, ctx) ==> result1 != nil && procstate == old(procstate)
-//@ loop #1
+//@ loop #1 over range req.GetParticipants()
 //@ invariant [range] 0 <= _n && _n <= len(req.Participants) && len(participants) == len(req.Participants) && fresh(participants)
 
 //@ func (*Handler).Contribute
@@ -60,9 +60,9 @@ package receiver
 //@ modifies procstate
 //@ ensures [peeronly] result1 == nil ==> isPeerName(h, ctx)
 //@ ensures [refused] !isPeerName(h, ctx) ==> result1 != nil && procstate == old(procstate)
-//@ loop #1
+//@ loop #1 over range req.GetVerificationVector()
 //@ invariant [range] 0 <= _n && _n <= len(req.VerificationVector) && len(vVec) == len(req.VerificationVector) && fresh(vVec)
-//@ loop #2
+//@ loop #2 over range retVVec
 //@ invariant [range] 0 <= _n && _n <= len(retVVec) && len(resVVec) == len(retVVec) && fresh(resVVec)
 
 // ---- construction: the object handed out has every collaborator the methods rely on ----
@@ -75,7 +75,7 @@ package receiver
 //@ requires [options] forall i int :: 0 <= i && i < len(params) ==> params[i] != nil
 //@ ensures [err] result1 != nil ==> result0 == nil
 //@ ensures [ok] result1 == nil ==> result0 != nil && result0.process != nil && result0.peers != nil
-//@ loop #1
+//@ loop #1 over range params
 //@ invariant [range] 0 <= _n && _n <= len(params)
 
 //@ func New
